@@ -11,7 +11,7 @@ import (
 
 const genName = "C29"
 
-var comps = []string{"..", ".", "", "%2F", "%2e%2e", ".uploads", "other", "x", "d", "up1", "up2", "secret", "etc", "y"}
+var comps = []string{"..", ".", "", "%2F", "%2e%2e", "%252e%252e", "..%252F..", "%252F", ".uploads", "other", "x", "d", "up1", "up2", "secret", "etc", "y"}
 var routes = []string{"get", "head", "put", "putdir", "delete", "copy", "mpinit", "mppart", "mpcopy", "mplist", "mpabort", "mpdone", "bdel", "tagget", "tagput", "tagdel", "list"}
 
 func advString(n int) string {
@@ -24,7 +24,7 @@ func advString(n int) string {
 
 // literal strings (no percent forms): upload ids, batch names
 func lit(s string) string {
-	return strings.NewReplacer("%2F", "/", "%2e%2e", "..").Replace(s)
+	return strings.NewReplacer("%252e%252e", "..", "..%252F..", "../..", "%252F", "/", "%2F", "/", "%2e%2e", "..").Replace(s)
 }
 
 var fixed = [][]string{ // route key uploadId copysrc names…
@@ -37,7 +37,11 @@ var fixed = [][]string{ // route key uploadId copysrc names…
 	{"copy", "cp", "", "bkt%2Fx"}, {"mpcopy", "x", "up1", "/bkt/../../etc/secret"},
 	{"putdir", "../newdir", "", ""}, {"putdir", "../../outside", "", ""}, {"put", "../other/planted", "", ""},
 	{"delete", "../other/secret", "", ""}, {"tagput", "../other/secret", "", ""}, {"tagget", "../other/secret", "", ""}, {"tagdel", "../other/secret", "", ""},
-	{"mpinit", "../k", "", ""}, {"mppart", "x", "../../other/.uploads/up2", ""}, {"list", "../other/", "", ""},
+	{"mpinit", "../k", "", ""},
+	// double-encoded: the handler sees the TEXT %2e%2e / %2F, which must stay an opaque name inside the bucket
+	{"get", "%252e%252e/other/secret", "", ""}, {"head", "%252e%252e/other/secret", "", ""}, {"get", "..%252Fother%252Fsecret", "", ""},
+	{"get", "%252e%252e/%252e%252e/etc/secret", "", ""}, {"put", "%252e%252e/other/planted2", "", ""}, {"delete", "%252e%252e/other/secret", "", ""},
+	{"delete", "..", "", ""}, {"put", "d/../../other/d/s", "", ""}, {"delete", "d/../../other/d", "", ""}, {"mppart", "x", "../../other/.uploads/up2", ""}, {"list", "../other/", "", ""},
 }
 
 func req(w []string) {
